@@ -158,6 +158,10 @@ class Untranslatable(Exception):
     pass
 
 
+class _NoUnroll(Exception):
+    pass
+
+
 def bad(msg, node=None):
     loc = ""
     if node is not None:
@@ -1393,8 +1397,8 @@ class Fn:
 
     def state_var(self):
         """the in/out parameter that holds the record the external calls may change"""
-        for pn, pty, mode in self.root.params:
-            if mode in ("inout", "value") and pty.elem.kind == "struct" and pty.elem.name == self.root.xstate:
+        for pn, pty, mode in self.params:
+            if mode in ("inout", "value") and pty.kind == "ptr" and pty.elem.kind == "struct" and pty.elem.name == self.root.xstate:
                 return pn
         bad("function over an XWorld has no in/out parameter of type %s" % self.root.xstate)
 
@@ -1601,6 +1605,7 @@ class Fn:
         sub.stack = self.stack + [name]
         sub.prefix = "%s%s" % (self.prefix, self.fresh("h"))
         sub.uses_mem, sub.writes_mem = self.uses_mem, self.writes_mem
+        sub.uses_world = self.uses_world
         fty = node["type"]["qualType"]
         sub.ret = parse_type(fty[:fty.index("(")].strip())
         if sub.ret.kind == "struct":
@@ -1921,7 +1926,7 @@ class Fn:
             if _condvar and _condvar.get("kind"):
                 bad("condition variable in for", s)
             if not cond or not cond.get("kind"):
-                bad("for without condition", s)
+                cond = {"kind": "IntegerLiteral", "value": "1", "type": {"qualType": "int"}, "_line": s.get("_line")}
             inc = inc if inc and inc.get("kind") else None
             if init and init.get("kind"):
                 return self.stmt(init, env, dict(ctx, next=lambda env2: self.loop(s, env2, ctx, cond=cond, body=body, inc=inc, test_first=True)))
@@ -1945,6 +1950,58 @@ class Fn:
             return self.stmts(lst, idx, env, top_ctx)
         bad("unsupported statement", s)
 
+    def try_unroll(self, s, env, ctx, cond, body, inc, budget=16):
+        """`for (i = c0; i < c1; i++)`-like loops: if the condition folds to a constant in every round (the loop counter is a known
+        constant on this path and the body does not change it in an unknown way), the loop is unrolled; None otherwise"""
+        def contains_jump(n):
+            if n.get("kind") in ("BreakStmt", "ContinueStmt"):
+                return True
+            if n.get("kind") in ("ForStmt", "WhileStmt", "DoStmt", "SwitchStmt"):
+                return False
+            return any(contains_jump(c) for c in n.get("inner", []) if isinstance(c, dict))
+        if contains_jump(body):
+            return None
+
+        def mentions_var(n):
+            if n.get("kind") == "DeclRefExpr" and n.get("referencedDecl", {}).get("kind") in ("VarDecl", "ParmVarDecl"):
+                return True
+            return any(mentions_var(c) for c in n.get("inner", []) if isinstance(c, dict))
+        if not mentions_var(cond):
+            return None                 # `while (1)`: not a counted loop
+        after = ctx["next"]
+
+        def round_(env2, k):
+            try:
+                c = self.as_bool(self.expr(cond, env2, "bool"))
+            except Untranslatable:
+                return None
+            if c.const is None or c.guards:
+                return None
+            if not c.const:
+                return after(env2)
+            if k >= budget:
+                return None
+
+            def nxt(env3):
+                if inc is None:
+                    r = round_(env3, k + 1)
+                else:
+                    r = self.stmt(inc, env3, dict(ctx, next=lambda env4: self._unroll_next(round_, env4, k + 1)))
+                if r is None:
+                    raise _NoUnroll()
+                return r
+            return self.stmt(body, copy_env(env2), dict(ctx, next=nxt))
+        try:
+            return round_(copy_env(env), 0)
+        except _NoUnroll:
+            return None
+
+    def _unroll_next(self, round_, env, k):
+        r = round_(env, k)
+        if r is None:
+            raise _NoUnroll()
+        return r
+
     def var_lean_type(self, name):
         info = self.vars[name]
         if info["mode"] in ("value", "inout"):
@@ -1957,9 +2014,13 @@ class Fn:
         """`while (cond) body` / `for (;cond;inc) body`: an auxiliary definition, structurally recursive on a fuel argument,
         that carries every variable in scope; what follows the loop is translated inside it (continuation passing), so it
         returns the function's result.  Running out of fuel is `none` (a loop that does not terminate has no result)."""
+        self.clear_hoists(cond)
+        if test_first:
+            unrolled = self.try_unroll(s, env, ctx, cond, body, inc)
+            if unrolled is not None:
+                return unrolled
         if self.prefix:
             bad("loop inside an inlined helper", s)
-        self.clear_hoists(cond)
         self.root.nloops += 1
         lname_ = "%s.loop%d" % (self.name, self.root.nloops)
         live = sorted(v for v in env["defined"] if v in self.vars and "alias" not in self.vars[v])
